@@ -240,11 +240,10 @@ def step1 (s : St) (toks : List String) : St × String :=
     | some v =>
       -- protocol guard: never delete the version the working tree was loaded from (or a
       -- newer one) while still newer versions exist
-      let ((_, latest), s) := s.getLatestVersion
-      if s.version ≤ v ∧ v < latest then (s, "err:guard") else
-      match s.deleteVersionsTo v with
-      | (.ok _, s') => (s', "ok")
-      | (.error e, s') => (s', e.token)
+      match s.deleteVersionsToGuarded v with
+      | (none, s') => (s', "err:guard")
+      | (some (.ok _), s') => (s', "ok")
+      | (some (.error e), s') => (s', e.token)
     | none => bad
   | ["reopen"] =>
     match s.reopen with
